@@ -502,6 +502,7 @@ void world_init(World &w, const Program &p) {
     w.keep_refs = p.get("keeprefs", 1) != 0;
     int nufd = (int)p.get("nufd", 3);
     W = &w;
+    if (p.get("fdzero", 0)) R->k.k_close(0, sim::OWN_USER);   // the program closed its standard input: descriptor number 0 is an ordinary number now (the first user descriptor gets it)
     for (int i = 0; i < nufd; i++) make_ufd(i);
     for (const Op &op : w.prog.ops)
         if (op.where != "D") w.scripts[op.where].push_back(&op);
